@@ -126,6 +126,34 @@ def loop_parts(e, cx):
             break
     return None
 
+def char_loop_parts(e, cx):
+    """`for (i, ch) in X.chars().enumerate()[.take(N)] { BODY }` -> {ivar, chvar, src, bound, body} or None"""
+    if e['k'] != 'Match': return None
+    sc = strip(e['scrutinee'])
+    if not (sc['k'] == 'Call' and callee_decl(sc) == 'std::iter::IntoIterator::into_iter'): return None
+    it = strip(sc['args'][0]); bound = None
+    if it['k'] == 'Call' and callee_decl(it) == 'std::iter::Iterator::take':
+        try: bound = poly_of(it['args'][1], cx)
+        except UUndec: return None
+        it = strip(it['args'][0])
+    if not (it['k'] == 'Call' and callee_decl(it) == 'std::iter::Iterator::enumerate'): return None
+    ch = strip(it['args'][0])
+    if not (ch['k'] == 'Call' and (callee_name(ch) or '').endswith('str::<impl str>::chars')): return None
+    src = root_var(ch['args'][0])
+    for m in walk(e):
+        if m['k'] == 'Match' and m is not e:
+            for a in m['arms']:
+                p = unwrap_pat(a['pat'])
+                if p['k'] == 'Variant' and p['variant'] == 'Some' and p['subs']:
+                    q = unwrap_pat(p['subs'][0]['pat'])
+                    if q['k'] == 'Leaf' and 'adt' not in q and len(q['subs']) == 2:
+                        subs = sorted(q['subs'], key=lambda x: x['field'])
+                        a0, a1 = unwrap_pat(subs[0]['pat']), unwrap_pat(subs[1]['pat'])
+                        if a0['k'] == 'Binding' and a1['k'] == 'Binding':
+                            return {'ivar': a0['var'], 'chvar': a1['var'], 'src': src, 'bound': bound, 'body': a['body']}
+            break
+    return None
+
 def decode_template(bs):
     """format_args! byte template of this nightly: <len> <len literal bytes> | 0xC0 (plain `{}` placeholder) ... 0x00"""
     out = ''; i = 0
@@ -179,7 +207,7 @@ def extract(F, c):
                         continue
                     if flt:
                         cl = [x for x in walk(flt[0]['args'][1]) if x['k'] == 'Closure']
-                        filters.append((q['name'], canon(cl[0]['def']) if cl else None))
+                        filters.append((q['name'], canon(cl[0]['def']) if cl else None, q['var']))
                         continue
                     if q['name'] in ('root', 'square', 'numcells'):
                         try:
@@ -202,6 +230,13 @@ def extract(F, c):
         while e['k'] in ('Use', 'NeverToAny'): e = e['source']
         if e['k'] == 'Block':
             visit_block(e, stack); return
+        cl = char_loop_parts(e, cx) if e['k'] == 'Match' else None
+        if cl is not None:
+            s = sym_for(cl['ivar'])
+            cx.ranges[s] = (pc(0), cl['bound'])       # bound None: not limited to the cells
+            char_loops[s] = cl
+            visit_block(cl['body'], stack + [s])
+            return
         lp = loop_parts(e, cx) if e['k'] == 'Match' else None
         if lp is not None:
             var, rg, lbody = lp
@@ -235,6 +270,8 @@ def extract(F, c):
             return
     stack_conds = []
     texts = []
+    char_loops = {}
+    cx.char_loops = char_loops
     visit_block(body, [])
     return cx, emissions, hints, filters, texts, size_defs
 
@@ -287,20 +324,39 @@ def rule_sudoku(F, R):
             okh = a0 in loopvar and __import__('engine_l').tokenize_text(__import__('engine_t').tokenizer_pattern(F.lib())[0], h['text']) == ['VAR:_ARG_is_ARG', 'And']
             why = 'the hint must name the cell by the loop index'
         if okh:
+            # the character shown in the hint: the i-th character of the whitespace-filtered text ...
             conds = h['conds']
-            nth = [x for cnd in conds for x in walk(cnd) if x['k'] == 'Call' and (callee_name(x) or '').endswith('Iterator>::nth') or (x['k'] == 'Call' and callee_decl(x) == 'std::iter::Iterator::nth')]
-            dig = [x for cnd in conds for x in walk(cnd) if x['k'] == 'Call' and (callee_name(x) or '') in ('core::char::methods::<impl char>::is_digit', 'std::char::methods::<impl char>::is_digit')]
-            okh = len(nth) >= 1 and len(dig) == 1 and root_var(nth[0]['args'][1]) in loopvar
-            if okh:
-                radix = strip(dig[0]['args'][1])
-                chv = root_var(dig[0]['args'][0]); a1 = root_var(h['args'][1])
-                okh = radix.get('value') == '10' and chv is not None and chv == a1
-            why = 'the hint for cell i must be the i-th character of the input, emitted only if it is a decimal digit'
+            filtered = [f[2] for f in filters if f[0] == 'puzzle_input']
+            a1 = root_var(h['args'][1])
+            cl = getattr(cx, 'char_loops', {}).get(st[0])
+            if cl is not None:
+                okh = cl['chvar'] == a1 and cl['src'] in filtered
+            else:
+                okh = False
+                for cnd in conds:
+                    if cnd['k'] != 'Let': continue
+                    src = strip(cnd['expr']); pt = unwrap_pat(cnd['pat'])
+                    if not (src['k'] == 'Call' and callee_decl(src) == 'std::iter::Iterator::nth' and root_var(src['args'][1]) in loopvar and strip(src['args'][1])['k'] == 'VarRef'): continue
+                    chs = strip(src['args'][0])
+                    while chs['k'] in ('Borrow', 'Deref'): chs = strip(chs['arg'])
+                    if not (chs['k'] == 'Call' and (callee_name(chs) or '').endswith('str::<impl str>::chars') and root_var(chs['args'][0]) in filtered): continue
+                    if pt['k'] == 'Variant' and pt['variant'] == 'Some' and pt['subs'] and unwrap_pat(pt['subs'][0]['pat']).get('var') == a1: okh = True
+            why = 'the hint for cell i must show the i-th character of the whitespace-filtered input text'
+        if okh:
+            # ... emitted exactly when that character is a decimal digit
+            digs = []
+            for cnd in conds:
+                b = strip(cnd)
+                if b['k'] == 'Call' and (callee_name(b) or '').endswith('<impl char>::is_digit') and strip(b['args'][1]).get('value') == '10' and root_var(b['args'][0]) == a1: digs.append(b)
+                if b['k'] == 'Call' and (callee_name(b) or '').endswith('<impl char>::is_ascii_digit') and root_var(b['args'][0]) == a1: digs.append(b)
+            others = [cnd for cnd in conds if cnd['k'] != 'Let' and not any(strip(cnd) is d for d in digs)]
+            okh = len(digs) >= 1 and not others
+            why = 'a hint must be emitted exactly when the character is a decimal digit (is_digit(ch, 10) / is_ascii_digit), under no other condition'
     R.count('U:hint-rule'); R.obligation(okh, 'U hints')
     if not okh: R.violation('sudoku_gen::main / U / hints', 'U', why)
     # whitespace is ignored: the input is filtered by !is_whitespace before indexing
     okf = False
-    for name, cl in filters:
+    for name, cl, _var in filters:
         ct = c.thir.get(cl) if cl else None
         if ct is not None:
             b = strip(ct['body'])
